@@ -569,6 +569,27 @@ func growInputs() [][]rune {
 	return out
 }
 
+// ---- LITAB: every literal over {a,b} (and, thorough, over {a,b,c} up to length 6): self-overlapping literals are what
+// the Boyer-Moore shift tables and the string prefix filters can get wrong; inputs are ALL strings over {a,b} up
+// to length 10 ----
+
+func litABFamily(full bool) []Pat {
+	var trees []*Node
+	for _, l := range allStrings([]rune{'a', 'b'}, 7)[1:] {
+		if len(l) >= 2 {
+			trees = append(trees, litStr(string(l)))
+		}
+	}
+	if full {
+		for _, l := range allStrings([]rune{'a', 'b'}, 9) {
+			if len(l) >= 8 {
+				trees = append(trees, litStr(string(l)))
+			}
+		}
+	}
+	return finalize("LITAB", trees, map[string]bool{}, false)
+}
+
 // ---- LOOK ----
 
 func lookFamily(c01only bool) []Pat {
